@@ -4,6 +4,7 @@ the encoder loop, the decoder loop, `class_factory`, and the induction on the
 nesting depth.  Core Lean only.
 -/
 import XsdataModel.Proofs.C04Lemmas
+import XsdataModel.Proofs.C01NTokens
 
 namespace Proofs.C04
 open Py Xs.Bind Xs.Dict
@@ -14,31 +15,18 @@ def IH (e : BEnv) (Γ : Ctx) (fac : Factory) (n : Nat) : Prop :=
     ∃ kvs, encModelF Γ fac {} n v = .ok (.obj kvs) ∧ kvKeys kvs = encKeys Γ fac v ∧ (J.obj kvs).native = true ∧
       ∀ cfg : ParserConfig, bindDataclassF e Γ n cfg c (.obj kvs) = ND.pure v
 
-/-! ### facts packed in `varOKj` -/
+/-! ### facts packed in `varTyped` -/
 
-theorem varOKj_facts {var : XmlVar} (h : varOKj var = true) :
+theorem varTyped_facts {var : XmlVar} (h : varTyped var = true) :
     var.isAttributes = false ∧ var.isWildcard = false ∧ var.isElements = false ∧ var.anyType = false ∧
     var.isClazzUnion = false ∧ var.elements = [] ∧ var.tokens = false := by
-  simp only [varOKj, Bool.and_eq_true, Bool.not_eq_true', List.isEmpty_iff] at h
+  simp only [varTyped, Bool.and_eq_true, Bool.not_eq_true', List.isEmpty_iff] at h
   obtain ⟨⟨⟨⟨⟨⟨⟨⟨h1, h2⟩, h3⟩, h4⟩, h5⟩, h6⟩, h7⟩, _⟩, _⟩ := h
   exact ⟨h1, h2, h3, h4, h5, h6, h7⟩
 
-theorem varOKj_types {var : XmlVar} (h : varOKj var = true) :
-    (var.clazz = none ∧ ∃ t, var.types = [.prim t] ∧ t ≠ .qname) ∨ (∃ k, var.clazz = some k ∧ var.types = [.cls k]) := by
-  simp only [varOKj, Bool.and_eq_true] at h
-  have ht := h.1.2
-  split at ht
-  · rename_i t hc hty
-    exact Or.inl ⟨hc, t, hty, by simpa using ht⟩
-  · rename_i k k' hc hty
-    have : k = k' := by simpa using ht
-    subst this
-    exact Or.inr ⟨k, hc, hty⟩
-  · cases ht
-
-theorem varOKj_wrapper {var : XmlVar} (h : varOKj var = true) (w : Str) (hw : wrapperName var.toVarCore = some w) :
+theorem varTyped_wrapper {var : XmlVar} (h : varTyped var = true) (w : Str) (hw : wrapperName var.toVarCore = some w) :
     var.listElement = true ∧ var.localName ≠ w := by
-  simp only [varOKj, Bool.and_eq_true] at h
+  simp only [varTyped, Bool.and_eq_true] at h
   have ht := h.2
   rw [hw] at ht
   simpa using ht
@@ -50,49 +38,99 @@ theorem classOKj_facts {ci : ClassInfo} {m : XmlMeta} (h : classOKj ci m = true)
     ((allVars m).map (fun v => keyOf v.toVarCore)).Nodup ∧
     (∀ a ∈ allVars m, ∀ b ∈ allVars m,
       (b.localName = keyOf a.toVarCore ∨ wrapperName b.toVarCore = some (keyOf a.toVarCore)) → b = a) ∧
-    kQName ∉ (allVars m).map (fun v => keyOf v.toVarCore) ∧
+    markersOK ci.id (allVars m) = true ∧
     ((allVars m).map (·.name)).Nodup ∧
     (ci.fields.map (·.name)).Nodup ∧
-    (∀ f ∈ ci.fields, ∃ var ∈ allVars m, var.name = f.name ∧ var.init = f.init) ∧
-    kChildren ∉ (allVars m).map (fun v => keyOf v.toVarCore) := by
-  simp only [classOKj, Bool.and_eq_true, List.all_eq_true, decide_eq_true_eq, Bool.not_eq_true',
+    (∀ f ∈ ci.fields, ∃ var ∈ allVars m, var.name = f.name ∧ var.init = f.init) := by
+  simp only [classOKj, Bool.and_eq_true, List.all_eq_true, decide_eq_true_eq,
     Bool.or_eq_true, bne_iff_ne, ne_eq, List.any_eq_true, beq_iff_eq] at h
-  obtain ⟨⟨⟨⟨⟨⟨⟨h1, h2⟩, h3⟩, h4⟩, h4c⟩, h5⟩, h6⟩, h7⟩ := h
-  refine ⟨h1, h2, ?_, ?_, h5, h6, ?_, ?_⟩
-  rotate_right
-  · intro hmem
-    have : ((allVars m).map (fun v => keyOf v.toVarCore)).contains kChildren = true := by
-      simpa using hmem
-    rw [this] at h4c
-    cases h4c
+  obtain ⟨⟨⟨⟨⟨⟨h1, h2⟩, h3⟩, h4⟩, h5⟩, h6⟩, h7⟩ := h
+  refine ⟨h1, h2, ?_, h4, h5, h6, ?_⟩
   · intro a ha b hb hor
     rcases h3 a ha b hb with ⟨hn1, hn2⟩ | heq
     · rcases hor with h | h
       · exact absurd h hn1
       · exact absurd h hn2
     · exact heq
-  · intro hmem
-    have : ((allVars m).map (fun v => keyOf v.toVarCore)).contains kQName = true := by
-      simpa using hmem
-    rw [this] at h4
-    cases h4
   · intro f hf
     obtain ⟨var, hvar, hname, hinit⟩ := h7 f hf
     exact ⟨var, hvar, hname, hinit⟩
 
+/-- a user class emits neither of the marker keys -/
+theorem markers_user {c : ClassId} {vars : List XmlVar} (h : markersOK c vars = true) (hc : c ≠ anyId) :
+    kQName ∉ vars.map (fun v => keyOf v.toVarCore) ∧ kChildren ∉ vars.map (fun v => keyOf v.toVarCore) := by
+  simp only [markersOK, hc, if_false, Bool.and_eq_true, Bool.not_eq_true'] at h
+  constructor
+  · intro hmem
+    have : (vars.map (fun v => keyOf v.toVarCore)).contains kQName = true := by simpa using hmem
+    rw [this] at h; cases h.1
+  · intro hmem
+    have : (vars.map (fun v => keyOf v.toVarCore)).contains kChildren = true := by simpa using hmem
+    rw [this] at h; cases h.2
+
+/-- the generic class emits only its own keys, and its two required keys come from fields whose
+values are never `None` -/
+theorem markers_any {vars : List XmlVar} (h : markersOK anyId vars = true) :
+    (∀ k ∈ vars.map (fun v => keyOf v.toVarCore), k ∈ anyKeys) ∧
+    (∀ k ∈ anyRequired, ∃ v ∈ vars, keyOf v.toVarCore = k ∧ (v.listElement = true ∨ v.isAttributes = true)) := by
+  simp only [markersOK, if_true, Bool.and_eq_true, List.all_eq_true, List.any_eq_true, beq_iff_eq,
+    Bool.or_eq_true] at h
+  constructor
+  · intro k hk
+    have := h.1 k hk
+    simpa using this
+  · intro k hk
+    obtain ⟨v, hv, hkv, hor⟩ := h.2 k hk
+    exact ⟨v, hv, hkv, hor⟩
+
+theorem valOptStr_optStrVal (q : Option Str) : valOptStr (optStrVal q) = some q := by
+  cases q <;> rfl
+
+theorem genericView_any (q t tl : Option Str) (a : List (QN × Str)) (cs : List Val) :
+    genericView (.obj anyId [(kQName, optStrVal q), (kText, optStrVal t), (kTail, optStrVal tl),
+      (kChildren, .list cs), (kAttributes, .attrs a)]) = .ok (.any q t tl a cs) := by
+  cases q <;> cases t <;> cases tl <;> rfl
+
 theorem valOKj_unpack {e : BEnv} {Γ : Ctx} {fac : Factory} {n : Nat} {c : ClassId} {v : Val}
     (h : valOKj e Γ fac (n + 1) c v = true) :
-    ∃ fs ci m, v = .obj c fs ∧ c ≠ anyId ∧ c ≠ derivedId ∧ Γ.find c = some ci ∧ metaOf Γ c = .ok m ∧
-      classOKj ci m = true ∧ fs.map (·.1) = ci.fields.map (·.name) ∧
+    ∃ fs ci m, asObject v = some (c, fs) ∧ genericView (.obj c fs) = .ok v ∧ c ≠ derivedId ∧
+      isAnyV v = decide (c = anyId) ∧
+      Γ.find c = some ci ∧ metaOf Γ c = .ok m ∧
+      classOKj ci m = true ∧ ci.id = c ∧ fs.map (·.1) = ci.fields.map (·.name) ∧
       (∀ var ∈ allVars m, ∃ x, kvGet fs var.name = some x ∧
-        valueOKj (valOKj e Γ fac n) Γ fac var x = true ∧ (var.init = true ∨ fixedOK e var x = true)) ∧
+        valueOKj e (valOKj e Γ fac n) Γ fac var x = true ∧ (var.init = true ∨ fixedOK e var x = true)) ∧
       (∀ kv ∈ fs, ∀ f ∈ ci.fields, f.name = kv.1 →
         (if f.init then keptBy fac kv.2 || defaultIs f .none else defaultIs f kv.2) = true) := by
-  cases v with
-  | obj c' fs =>
-    simp only [valOKj, Bool.and_eq_true, beq_iff_eq, bne_iff_ne, ne_eq] at h
-    obtain ⟨⟨⟨hc, ha⟩, hd⟩, hrest⟩ := h
+  unfold valOKj at h
+  cases hobj : asObject v with
+  | none => simp [hobj] at h
+  | some cf =>
+    obtain ⟨c', fs⟩ := cf
+    simp only [hobj, Bool.and_eq_true, beq_iff_eq, bne_iff_ne, ne_eq] at h
+    obtain ⟨⟨⟨hc, hd⟩, hany⟩, hrest⟩ := h
     subst hc
+    have hgv : genericView (.obj c' fs) = .ok v := by
+      cases v with
+      | obj c'' fs'' =>
+        simp only [asObject, Option.some.injEq, Prod.mk.injEq] at hobj
+        obtain ⟨h1, h2⟩ := hobj
+        subst h1; subst h2
+        have hne : c'' ≠ anyId := by
+          intro heq
+          simp [heq, isAnyV] at hany
+        simp [genericView, hne, hd]
+      | any q t tl a cs =>
+        simp only [asObject, Option.some.injEq, Prod.mk.injEq] at hobj
+        obtain ⟨h1, h2⟩ := hobj
+        subst h1; subst h2
+        exact genericView_any q t tl a cs
+      | derived q x t =>
+        simp only [asObject, Option.some.injEq, Prod.mk.injEq] at hobj
+        exact absurd hobj.1.symm hd
+      | none => simp [asObject] at hobj
+      | prim p => simp [asObject] at hobj
+      | list xs => simp [asObject] at hobj
+      | attrs a => simp [asObject] at hobj
     cases hfind : Γ.find c' with
     | none => simp [hfind] at hrest
     | some ci =>
@@ -100,8 +138,8 @@ theorem valOKj_unpack {e : BEnv} {Γ : Ctx} {fac : Factory} {n : Nat} {c : Class
       | error err => simp [hfind, hmeta] at hrest
       | ok m =>
         simp only [hfind, hmeta, Bool.and_eq_true, beq_iff_eq, List.all_eq_true, Bool.or_eq_true, bne_iff_ne, ne_eq] at hrest
-        obtain ⟨⟨⟨hcl, hnames⟩, hvars⟩, hfields⟩ := hrest
-        refine ⟨fs, ci, m, rfl, ha, hd, rfl, rfl, hcl, hnames, ?_, ?_⟩
+        obtain ⟨⟨⟨⟨hcl, hid⟩, hnames⟩, hvars⟩, hfields⟩ := hrest
+        refine ⟨fs, ci, m, rfl, hgv, hd, hany, rfl, rfl, hcl, hid, hnames, ?_, ?_⟩
         · intro var hvar
           have := hvars var hvar
           cases hget : kvGet fs var.name with
@@ -113,12 +151,6 @@ theorem valOKj_unpack {e : BEnv} {Γ : Ctx} {fac : Factory} {n : Nat} {c : Class
           rcases hfields kv hkv f hf with hne | hok
           · exact absurd hname hne
           · exact hok
-  | none => simp [valOKj] at h
-  | prim p => simp [valOKj] at h
-  | list xs => simp [valOKj] at h
-  | any q t tl a cs => simp [valOKj] at h
-  | derived q x t => simp [valOKj] at h
-  | attrs a => simp [valOKj] at h
 
 theorem valOKj_succ {e : BEnv} {Γ : Ctx} {fac : Factory} {n : Nat} {c : ClassId} {v : Val}
     (h : valOKj e Γ fac n c v = true) : ∃ n', n = n' + 1 := by
@@ -126,10 +158,11 @@ theorem valOKj_succ {e : BEnv} {Γ : Ctx} {fac : Factory} {n : Nat} {c : ClassId
   | zero => simp [valOKj] at h
   | succ n' => exact ⟨n', rfl⟩
 
-theorem encKeys_sub {Γ : Ctx} {fac : Factory} {c : ClassId} {fs : List (Str × Val)} {m : XmlMeta}
-    (hmeta : metaOf Γ c = .ok m) : ∀ k ∈ encKeys Γ fac (.obj c fs), k ∈ (allVars m).map (fun v => keyOf v.toVarCore) := by
+theorem encKeys_sub {Γ : Ctx} {fac : Factory} {v : Val} {c : ClassId} {fs : List (Str × Val)} {m : XmlMeta}
+    (hobj : asObject v = some (c, fs)) (hmeta : metaOf Γ c = .ok m) :
+    ∀ k ∈ encKeys Γ fac v, k ∈ (allVars m).map (fun v => keyOf v.toVarCore) := by
   intro k hk
-  simp only [encKeys, hmeta, List.mem_filterMap] at hk
+  simp only [encKeys, hobj, hmeta, List.mem_filterMap] at hk
   obtain ⟨var, hvar, hsome⟩ := hk
   rw [List.mem_map]
   refine ⟨var, hvar, ?_⟩
@@ -144,9 +177,9 @@ theorem encKeys_sub {Γ : Ctx} {fac : Factory} {c : ClassId} {fs : List (Str × 
 /-! ### one item -/
 
 theorem bindItem_null (e : BEnv) (rec : Rec) (Γ : Ctx) (cfg : ParserConfig) (m : XmlMeta) (var : XmlVar)
-    (hv : varOKj var = true) (hd : defaultNone var = true) :
+    (hv : varTyped var = true) (hd : defaultNone var = true) :
     bindItemWith e rec Γ cfg m var .null = ND.pure .none := by
-  obtain ⟨h1, h2, h3, h4, _, _, h7⟩ := varOKj_facts hv
+  obtain ⟨h1, h2, h3, h4, _, _, h7⟩ := varTyped_facts hv
   have h2' : var.toVarCore.isWildcard = false := h2
   have h4' : var.toVarCore.anyType = false := h4
   have h7' : var.toVarCore.tokens = false := h7
@@ -163,21 +196,12 @@ theorem bindItem_null (e : BEnv) (rec : Rec) (Γ : Ctx) (cfg : ParserConfig) (m 
   | other => rw [hdef] at hd; cases hd
 
 theorem bindItem_prim (e : BEnv) (rec : Rec) (Γ : Ctx) (cfg : ParserConfig) (m : XmlMeta) (var : XmlVar)
-    (hv : varOKj var = true) (p : PVal) (ht : var.types = [.prim (pvalType p)]) :
+    (hv : varTyped var = true) (p : PVal) (ht : var.types = [.prim (pvalType p)]) (hqb : qnameBack e p = true) :
     bindItemWith e rec Γ cfg m var (encPrim p) = ND.pure (.prim p) := by
-  obtain ⟨h1, h2, h3, h4, _, _, h7⟩ := varOKj_facts hv
+  obtain ⟨h1, h2, h3, h4, _, _, h7⟩ := varTyped_facts hv
   have h2' : var.toVarCore.isWildcard = false := h2
   have h4' : var.toVarCore.anyType = false := h4
   have h7' : var.toVarCore.tokens = false := h7
-  have hq : pvalType p ≠ .qname := by
-    rcases varOKj_types hv with ⟨_, t, hty, hne⟩ | ⟨k, _, hty⟩
-    · rw [ht] at hty
-      injection hty with h _
-      injection h with h
-      rw [h]; exact hne
-    · rw [ht] at hty
-      injection hty with h _
-      cases h
   have hty : var.toVarCore.types = [.prim (pvalType p)] := ht
   have key : Xs.Dict.bindText e cfg var (encPrim p) = .ok (.prim p) := by
     simp only [Xs.Dict.bindText, h3, Bool.false_eq_true, if_false, bindTextPlain, h2', h4', Bool.or_self, h7', hty]
@@ -185,14 +209,20 @@ theorem bindItem_prim (e : BEnv) (rec : Rec) (Γ : Ctx) (cfg : ParserConfig) (m 
     | str s => simp [encPrim, scalarType, pvalType, rawVal, rawScalar]
     | int i => simp [encPrim, scalarType, pvalType, rawVal, rawScalar]
     | bool b => simp [encPrim, scalarType, pvalType, rawVal, rawScalar]
-    | qname t => exact absurd rfl hq
+    | qname t =>
+      have hd : deOne e t (.prim .qname) [] = some (.qname t) := by simpa [qnameBack] using hqb
+      simp only [encPrim, scalarType, pvalType, Bool.not_false, Bool.true_and, serializeJ, serScalar, Except.map]
+      have hnc : ([TypeRef.prim PT.qname].contains (TypeRef.prim PT.str)) = false := by decide
+      simp only [hnc, Bool.false_eq_true, if_false]
+      unfold parseVar
+      simp only [Option.getD_none, h7', Bool.false_eq_true, if_false, hty, pvalType, deserialize, List.findSome?, hd]
   unfold bindItemWith
   simp only [h1, Bool.false_eq_true, if_false]
   cases p with
   | str s => simp only [encPrim]; rw [show J.str s = encPrim (.str s) from rfl, key]; rfl
   | int i => simp only [encPrim]; rw [show J.num i = encPrim (.int i) from rfl, key]; rfl
   | bool b => simp only [encPrim]; rw [show J.bool b = encPrim (.bool b) from rfl, key]; rfl
-  | qname t => exact absurd rfl hq
+  | qname t => simp only [encPrim]; rw [show J.str t = encPrim (.qname t) from rfl, key]; rfl
 
 theorem keysEq_false_of_not_mem {α} (d : List (Str × α)) (ks : List Str) (k : Str) (hk : k ∈ ks)
     (hn : k ∉ kvKeys d) : keysEq d ks = false := by
@@ -243,25 +273,29 @@ theorem bindBest_unique (rec : Rec) (Γ : Ctx) (cfg : ParserConfig) (ordered : B
   cases ordered <;> simp [ND.run, ND.pure, maxScore, ND.choose] <;> rfl
 
 theorem bindItem_obj (e : BEnv) (Γ : Ctx) (fac : Factory) (n : Nat) (ih : IH e Γ fac n) (cfg : ParserConfig)
-    (m : XmlMeta) (var : XmlVar) (hv : varOKj var = true) (k k' : ClassId) (fs' : List (Str × Val))
+    (m : XmlMeta) (var : XmlVar) (hv : varTyped var = true) (k k' : ClassId) (fs' : List (Str × Val))
     (hc : var.clazz = some k) (hok : valOKj e Γ fac n k' (.obj k' fs') = true)
     (hpool : poolOKj Γ fac k (.obj k' fs') = true) :
     ∃ kvs, encModelF Γ fac {} n (.obj k' fs') = .ok (.obj kvs) ∧ (J.obj kvs).native = true ∧
       bindItemWith e (bindDataclassF e Γ n) Γ cfg m var (.obj kvs) = ND.pure (.obj k' fs') := by
   obtain ⟨kvs, henc, hkeys, hnat, hdec⟩ := ih k' _ hok
   refine ⟨kvs, henc, hnat, ?_⟩
-  obtain ⟨h1, h2, h3, h4, h5, h6, h7⟩ := varOKj_facts hv
+  obtain ⟨h1, h2, h3, h4, h5, h6, h7⟩ := varTyped_facts hv
   obtain ⟨n', hn⟩ := valOKj_succ hok
   subst hn
-  obtain ⟨fs, ci, m', hveq, _, _, _, hmeta, hcl, _, _, _⟩ := valOKj_unpack hok
+  obtain ⟨fs, ci, m', hobj, _, _, hisany, _, hmeta, hcl, hid, _, _, _⟩ := valOKj_unpack hok
+  have hk'ne : k' ≠ anyId := by
+    intro heq
+    simp [isAnyV, heq] at hisany
+  have hmk := markers_user (classOKj_facts hcl).2.2.2.1 (by rw [hid]; exact hk'ne)
   have hq : kQName ∉ kvKeys kvs := by
     rw [hkeys]
     intro hmem
-    exact (classOKj_facts hcl).2.2.2.1 (encKeys_sub hmeta _ hmem)
+    exact hmk.1 (encKeys_sub hobj hmeta _ hmem)
   have hch : kChildren ∉ kvKeys kvs := by
     rw [hkeys]
     intro hmem
-    exact (classOKj_facts hcl).2.2.2.2.2.2.2 (encKeys_sub hmeta _ hmem)
+    exact hmk.2 (encKeys_sub hobj hmeta _ hmem)
   have hany : isGeneric kvs anyRequired anyKeys = false :=
     isGeneric_false_of_not_mem kvs anyRequired anyKeys kChildren (by simp [anyRequired]) hch
   have hder : isGeneric kvs derivedRequired derivedKeys = false :=
@@ -287,16 +321,17 @@ def isNoneV : Val → Bool
   | _ => false
 
 theorem item_rt (e : BEnv) (Γ : Ctx) (fac : Factory) (n : Nat) (ih : IH e Γ fac n) (cfg : ParserConfig)
-    (m : XmlMeta) (var : XmlVar) (hv : varOKj var = true) (x : Val)
-    (hx : itemOKj (valOKj e Γ fac n) Γ fac var x = true) :
+    (m : XmlMeta) (var : XmlVar) (hv : varTyped var = true) (x : Val)
+    (hx : itemOKj e (valOKj e Γ fac n) Γ fac var x = true) :
     ∃ j, encElemWith (encModelF Γ fac {} n) x = .ok j ∧ j.isNull = isNoneV x ∧ j.isArr = false ∧ j.native = true ∧
       bindItemWith e (bindDataclassF e Γ n) Γ cfg m var j = ND.pure x := by
   cases x with
   | none =>
     exact ⟨.null, rfl, rfl, rfl, rfl, bindItem_null e _ Γ cfg m var hv (by simpa [itemOKj] using hx)⟩
   | prim p =>
-    have ht : var.types = [.prim (pvalType p)] := by simpa [itemOKj] using hx
-    refine ⟨encPrim p, rfl, ?_, ?_, ?_, bindItem_prim e _ Γ cfg m var hv p ht⟩
+    have hx' : var.types = [.prim (pvalType p)] ∧ qnameBack e p = true := by simpa [itemOKj] using hx
+    have ht := hx'.1
+    refine ⟨encPrim p, rfl, ?_, ?_, ?_, bindItem_prim e _ Γ cfg m var hv p ht hx'.2⟩
     · cases p <;> rfl
     · cases p <;> rfl
     · cases p <;> rfl
@@ -377,15 +412,15 @@ theorem bindValue_nonarr (e : BEnv) (rec : Rec) (Γ : Ctx) (cfg : ParserConfig) 
   | arr xs => simp [J.isArr] at hj
   | _ => rfl
 
-theorem value_rt (e : BEnv) (Γ : Ctx) (fac : Factory) (n : Nat) (ih : IH e Γ fac n) (cfg : ParserConfig)
-    (m : XmlMeta) (var : XmlVar) (hv : varOKj var = true) (x : Val)
-    (hx : valueOKj (valOKj e Γ fac n) Γ fac var x = true) :
+theorem value_rt_typed (e : BEnv) (Γ : Ctx) (fac : Factory) (n : Nat) (ih : IH e Γ fac n) (cfg : ParserConfig)
+    (m : XmlMeta) (var : XmlVar) (hv : varTyped var = true) (x : Val)
+    (hx : typedValueOKj e (valOKj e Γ fac n) Γ fac var x = true) :
     ∃ j, encVarWith fac (encModelF Γ fac {} n) var x = .ok j ∧ j.isNull = isNoneV x ∧ j.native = true ∧
       varMatches (keyOf var.toVarCore) j var = true ∧
       ∃ j', unwrapValue var j = .ok j' ∧ (j'.isNull && var.listElement) = false ∧
         bindValueWith e (bindDataclassF e Γ n) Γ cfg m var j' = ND.pure x := by
-  obtain ⟨h1, h2, h3, h4, h5, h6, h7⟩ := varOKj_facts hv
-  unfold valueOKj at hx
+  obtain ⟨h1, h2, h3, h4, h5, h6, h7⟩ := varTyped_facts hv
+  unfold typedValueOKj at hx
   by_cases hl : var.listElement = true
   · -- a repeating element
     simp only [hl, if_true] at hx
@@ -424,7 +459,7 @@ theorem value_rt (e : BEnv) (Γ : Ctx) (fac : Factory) (n : Nat) (ih : IH e Γ f
         · simp [varMatches, keyOf, hw, J.isArr, J.isNull, varIsList, hl]
         · simp [unwrapValue, hw]
       | some w =>
-        have hne := (varOKj_wrapper hv w hw).2
+        have hne := (varTyped_wrapper hv w hw).2
         refine ⟨.obj [(var.localName, .arr js)], ?_, rfl, ?_, ?_, .arr js, ?_, by simp [J.isNull], hbind⟩
         · simp only [encVarWith, hw, hcore, Except.map, fac_apply_single]
         · have hnl : J.nativeList js = true := by simpa only [J.native] using hnat
@@ -443,8 +478,8 @@ theorem value_rt (e : BEnv) (Γ : Ctx) (fac : Factory) (n : Nat) (ih : IH e Γ f
     have hw : wrapperName var.toVarCore = none := by
       cases hw : wrapperName var.toVarCore with
       | none => rfl
-      | some w => have := (varOKj_wrapper hv w hw).1; rw [hl'] at this; cases this
-    have hitem : itemOKj (valOKj e Γ fac n) Γ fac var x = true := by
+      | some w => have := (varTyped_wrapper hv w hw).1; rw [hl'] at this; cases this
+    have hitem : itemOKj e (valOKj e Γ fac n) Γ fac var x = true := by
       cases x with
       | list xs => simp at hx
       | _ => exact hx
@@ -466,6 +501,496 @@ theorem value_rt (e : BEnv) (Γ : Ctx) (fac : Factory) (n : Nat) (ih : IH e Γ f
     | any q t tl a cs => simp [itemOKj] at hitem
     | derived q y t => simp [itemOKj] at hitem
     | attrs a => simp [itemOKj] at hitem
+
+/-! ### an `xs:anyAttribute` map -/
+
+theorem nativePairs_strs (m : List (Str × Str)) : J.nativePairs (m.map fun kv => (kv.1, J.str kv.2)) = true := by
+  induction m with
+  | nil => rfl
+  | cons kv t ih => simp only [List.map_cons, J.nativePairs, J.native, ih, Bool.and_self]
+
+theorem mapM_strs (f : Str × J → Option (Str × Str)) (hf : ∀ k s, f (k, .str s) = some (k, s))
+    (m : List (Str × Str)) : (m.map fun kv => (kv.1, J.str kv.2)).mapM f = some m := by
+  induction m with
+  | nil => rfl
+  | cons kv t ih =>
+    rw [List.map_cons, List.mapM_cons, ih, hf]
+    rfl
+
+theorem value_rt_attrs (e : BEnv) (Γ : Ctx) (fac : Factory) (n : Nat) (cfg : ParserConfig)
+    (m : XmlMeta) (var : XmlVar) (hv : varAttrs var = true) (x : Val) (hx : attrsValueOKj x = true) :
+    ∃ j, encVarWith fac (encModelF Γ fac {} n) var x = .ok j ∧ j.isNull = isNoneV x ∧ j.native = true ∧
+      varMatches (keyOf var.toVarCore) j var = true ∧
+      ∃ j', unwrapValue var j = .ok j' ∧ (j'.isNull && var.listElement) = false ∧
+        bindValueWith e (bindDataclassF e Γ n) Γ cfg m var j' = ND.pure x := by
+  simp only [varAttrs, Bool.and_eq_true, Bool.not_eq_true', Option.isNone_iff_eq_none] at hv
+  obtain ⟨⟨⟨ha, hl⟩, ht⟩, hw⟩ := hv
+  cases x with
+  | attrs a =>
+    have hnd : (a.map (·.1)).Nodup := by simpa [attrsValueOKj] using hx
+    refine ⟨.obj (a.map fun kv => (kv.1, J.str kv.2)), ?_, rfl, ?_, ?_, .obj (a.map fun kv => (kv.1, J.str kv.2)), ?_, ?_, ?_⟩
+    · simp [encVarWith, hw, encCoreWith, encItemWith]
+    · simp only [J.native, Bool.and_eq_true, decide_eq_true_eq, List.map_map, Function.comp_def]
+      exact ⟨hnd, nativePairs_strs a⟩
+    · simp [varMatches, keyOf, hw, J.isArr, J.isNull, varIsList, hl, ht]
+    · simp [unwrapValue, hw]
+    · simp [J.isNull]
+    · unfold bindValueWith
+      simp only [ha, if_true, bindAttributes]
+      rw [mapM_strs _ (fun k s => rfl) a]
+      rfl
+  | none => simp [attrsValueOKj] at hx
+  | prim p => simp [attrsValueOKj] at hx
+  | list xs => simp [attrsValueOKj] at hx
+  | obj c fs => simp [attrsValueOKj] at hx
+  | any q t tl b cs => simp [attrsValueOKj] at hx
+  | derived q y t => simp [attrsValueOKj] at hx
+
+/-! ### a wildcard field -/
+
+theorem varWild_facts {var : XmlVar} (h : varWild var = true) :
+    var.isWildcard = true ∧ var.isAttributes = false ∧ var.isElements = false ∧ var.tokens = false ∧
+    wrapperName var.toVarCore = none := by
+  simp only [varWild, Bool.and_eq_true, Bool.not_eq_true', Option.isNone_iff_eq_none] at h
+  obtain ⟨⟨⟨⟨⟨⟨⟨h1, h2⟩, h3⟩, _⟩, _⟩, h6⟩, _⟩, h8⟩ := h
+  exact ⟨h1, h2, h3, h6, h8⟩
+
+/-- the encoded form of a generic element is recognised as one -/
+theorem any_isGeneric {e : BEnv} {Γ : Ctx} {fac : Factory} {n : Nat} {x : Val}
+    (hok : valOKj e Γ fac (n + 1) anyId x = true) (kvs : List (Str × J)) (hkeys : kvKeys kvs = encKeys Γ fac x) :
+    isGeneric kvs anyRequired anyKeys = true := by
+  obtain ⟨fs, ci, m, hobj, _, _, _, _, hmeta, hcl, hid, _, hvars, _⟩ := valOKj_unpack hok
+  have hmk := markers_any (by have := (classOKj_facts hcl).2.2.2.1; rwa [hid] at this)
+  unfold isGeneric
+  rw [Bool.and_eq_true, List.all_eq_true, List.all_eq_true, hkeys]
+  constructor
+  · intro k hk
+    obtain ⟨v, hv, hkv, hor⟩ := hmk.2 k hk
+    obtain ⟨y, hget, hval, _⟩ := hvars v hv
+    have hkept : keptBy fac y = true := by
+      cases y with
+      | none =>
+        -- a list / map field never holds `None`
+        unfold valueOKj at hval
+        rcases hor with hl | ha
+        · by_cases hattr : v.isAttributes = true
+          · simp [hattr, attrsValueOKj] at hval
+          · by_cases hw : v.isWildcard = true
+            · simp [hattr, hw, wildValueOKj, hl] at hval
+            · by_cases ht : v.tokens = true
+              · simp only [hattr, hw, ht, Bool.false_eq_true, if_false, if_true, tokensValueOKj] at hval
+                split at hval
+                · simp [Xs.Bind.FN.tokensOK] at hval
+                · cases hval
+              · by_cases hel : v.isElements = true
+                · simp [hattr, hw, ht, hel, compValueOKj] at hval
+                · simp [hattr, hw, ht, hel, typedValueOKj, hl] at hval
+        · simp [ha, attrsValueOKj] at hval
+      | _ => cases fac <;> rfl
+    have : k ∈ encKeys Γ fac x := by
+      simp only [encKeys, hobj, hmeta, List.mem_filterMap]
+      exact ⟨v, hv, by simp [hget, hkept, hkv]⟩
+    simpa using this
+  · intro k hk
+    have := hmk.1 k (encKeys_sub hobj hmeta k hk)
+    simpa using this
+
+theorem wildItem_rt (e : BEnv) (Γ : Ctx) (fac : Factory) (n : Nat) (ih : IH e Γ fac n) (cfg : ParserConfig)
+    (m : XmlMeta) (var : XmlVar) (hv : varWild var = true) (x : Val)
+    (hx : wildItemOKj (valOKj e Γ fac n) x = true) :
+    ∃ j, encElemWith (encModelF Γ fac {} n) x = .ok j ∧ j.isNull = isNoneV x ∧ j.isArr = false ∧ j.native = true ∧
+      bindItemWith e (bindDataclassF e Γ n) Γ cfg m var j = ND.pure x := by
+  obtain ⟨hw, ha, hel, _, _⟩ := varWild_facts hv
+  have hwc : var.toVarCore.isWildcard = true := hw
+  have hraw : ∀ j : J, j.isObj = false → bindItemWith e (bindDataclassF e Γ n) Γ cfg m var j
+      = ND.ofExcept (rawVal j) := by
+    intro j hj
+    unfold bindItemWith
+    simp only [ha, Bool.false_eq_true, if_false]
+    cases j with
+    | obj kvs => simp [J.isObj] at hj
+    | _ => simp [Xs.Dict.bindText, hel, bindTextPlain, hwc]
+  cases x with
+  | none => exact ⟨.null, rfl, rfl, rfl, rfl, by rw [hraw _ rfl]; rfl⟩
+  | prim p =>
+    have hq : pvalType p ≠ .qname := by simpa [wildItemOKj] using hx
+    refine ⟨encPrim p, rfl, ?_, ?_, ?_, ?_⟩
+    · cases p <;> rfl
+    · cases p <;> rfl
+    · cases p <;> rfl
+    · cases p with
+      | str s => rw [hraw _ rfl]; rfl
+      | int i => rw [hraw _ rfl]; rfl
+      | bool b => rw [hraw _ rfl]; rfl
+      | qname t => exact absurd rfl hq
+  | any q t tl a cs =>
+    have hok : valOKj e Γ fac n anyId (.any q t tl a cs) = true := by simpa [wildItemOKj] using hx
+    obtain ⟨kvs, henc, hkeys, hnat, hdec⟩ := ih anyId _ hok
+    obtain ⟨n', hn⟩ := valOKj_succ hok
+    subst hn
+    refine ⟨.obj kvs, henc, rfl, rfl, hnat, ?_⟩
+    unfold bindItemWith
+    simp only [ha, Bool.false_eq_true, if_false, any_isGeneric hok kvs hkeys, if_true]
+    exact hdec cfg
+  | list xs => simp [wildItemOKj] at hx
+  | obj c fs => simp [wildItemOKj] at hx
+  | derived q y t => simp [wildItemOKj] at hx
+  | attrs a => simp [wildItemOKj] at hx
+
+theorem value_rt_wild (e : BEnv) (Γ : Ctx) (fac : Factory) (n : Nat) (ih : IH e Γ fac n) (cfg : ParserConfig)
+    (m : XmlMeta) (var : XmlVar) (hv : varWild var = true) (x : Val)
+    (hx : wildValueOKj (valOKj e Γ fac n) var x = true) :
+    ∃ j, encVarWith fac (encModelF Γ fac {} n) var x = .ok j ∧ j.isNull = isNoneV x ∧ j.native = true ∧
+      varMatches (keyOf var.toVarCore) j var = true ∧
+      ∃ j', unwrapValue var j = .ok j' ∧ (j'.isNull && var.listElement) = false ∧
+        bindValueWith e (bindDataclassF e Γ n) Γ cfg m var j' = ND.pure x := by
+  obtain ⟨hwc, ha, hel, ht, hw⟩ := varWild_facts hv
+  unfold wildValueOKj at hx
+  by_cases hl : var.listElement = true
+  · simp only [hl, if_true] at hx
+    cases x with
+    | list items =>
+      simp only [List.all_eq_true] at hx
+      have hitems : ∀ y ∈ items, ∃ j, encElemWith (encModelF Γ fac {} n) y = .ok j := by
+        intro y hy
+        obtain ⟨j, hj, _⟩ := wildItem_rt e Γ fac n ih cfg m var hv y (hx y hy)
+        exact ⟨j, hj⟩
+      obtain ⟨js, hjs⟩ := mapM_exists _ items hitems
+      have hdec : ND.mapM (bindItemWith e (bindDataclassF e Γ n) Γ cfg m var) js = ND.pure items := by
+        apply nd_mapM_roundtrip _ _ items js hjs
+        intro y hy j hj
+        obtain ⟨j0, hj0, _, _, _, hd⟩ := wildItem_rt e Γ fac n ih cfg m var hv y (hx y hy)
+        rw [hj0] at hj
+        injection hj with hj
+        rw [← hj]; exact hd
+      have hnat : (J.arr js).native = true := by
+        simp only [J.native]
+        exact nativeList_of_mapM _ items js hjs (by
+          intro y hy j hj
+          obtain ⟨j0, hj0, _, _, hn, _⟩ := wildItem_rt e Γ fac n ih cfg m var hv y (hx y hy)
+          rw [hj0] at hj
+          injection hj with hj
+          rw [← hj]; exact hn)
+      refine ⟨.arr js, ?_, rfl, hnat, ?_, .arr js, ?_, ?_, ?_⟩
+      · simp only [encVarWith, hw, encCoreWith, hjs]; rfl
+      · simp [varMatches, keyOf, hw, J.isArr, varIsList, hl]
+      · simp [unwrapValue, hw]
+      · simp [J.isNull]
+      · unfold bindValueWith
+        simp only [ha, Bool.false_eq_true, if_false, hl, if_true, hdec, nd_pure_bind]
+    | none => simp at hx
+    | prim p => simp at hx
+    | obj c fs => simp at hx
+    | any q t tl a cs => simp at hx
+    | derived q y t => simp at hx
+    | attrs a => simp at hx
+  · have hl' : var.listElement = false := by simpa using hl
+    simp only [hl', Bool.false_eq_true, if_false] at hx
+    have hitem : wildItemOKj (valOKj e Γ fac n) x = true := by
+      cases x with
+      | list xs => simp at hx
+      | _ => exact hx
+    obtain ⟨j, hj, hnull, harr, hnat, hd⟩ := wildItem_rt e Γ fac n ih cfg m var hv x hitem
+    have hm : varMatches (keyOf var.toVarCore) j var = true := by
+      simp [varMatches, keyOf, hw, harr, varIsList, hl', ht]
+    have hb : bindValueWith e (bindDataclassF e Γ n) Γ cfg m var j = ND.pure x := by
+      rw [bindValue_nonarr e _ Γ cfg m var ha j harr]; exact hd
+    have hu : unwrapValue var j = .ok j := by simp [unwrapValue, hw]
+    refine ⟨j, ?_, hnull, hnat, hm, j, hu, by simp [hl'], hb⟩
+    cases x with
+    | none =>
+      simp only [encElemWith, encItemWith] at hj
+      injection hj with hj
+      subst hj; rfl
+    | prim p => simpa only [encVarWith, hw, encCoreWith, encElemWith] using hj
+    | any q t tl a cs => simpa only [encVarWith, hw, encCoreWith, encElemWith] using hj
+    | list xs => simp [wildItemOKj] at hitem
+    | obj c fs => simp [wildItemOKj] at hitem
+    | derived q y t => simp [wildItemOKj] at hitem
+    | attrs a => simp [wildItemOKj] at hitem
+
+/-! ### a tokens field -/
+
+theorem varTokens_facts {var : XmlVar} (h : varTokens var = true) :
+    var.tokens = true ∧ var.listElement = false ∧ var.isAttributes = false ∧ var.isWildcard = false ∧
+    var.isElements = false ∧ var.anyType = false ∧ wrapperName var.toVarCore = none ∧
+    ∃ t, var.types = [.prim t] ∧ t ≠ .qname := by
+  simp only [varTokens, Bool.and_eq_true, Bool.not_eq_true', Option.isNone_iff_eq_none] at h
+  obtain ⟨⟨⟨⟨⟨⟨⟨⟨h1, h2⟩, h3⟩, h4⟩, h5⟩, h6⟩, _⟩, h8⟩, h9⟩ := h
+  refine ⟨h1, h2, h3, h4, h5, h6, h8, ?_⟩
+  split at h9
+  · rename_i t ht; exact ⟨t, ht, by simpa using h9⟩
+  · cases h9
+
+theorem prims_of_tokensOK (e : BEnv) (t : PT) (ys : List Val) (h : Xs.Bind.FN.tokensOK e t (.list ys) = true) :
+    ∃ ps : List PVal, ys = ps.map Val.prim ∧
+      ∀ p ∈ ps, Xs.Bind.F1.primHasType p t = true ∧ Xs.Bind.FN.tokenOK e p = true := by
+  simp only [Xs.Bind.FN.tokensOK, List.all_eq_true] at h
+  induction ys with
+  | nil => exact ⟨[], rfl, fun p hp => by cases hp⟩
+  | cons y ys ih =>
+    obtain ⟨ps, hps, hall⟩ := ih (fun z hz => h z (List.mem_cons_of_mem _ hz))
+    have hy := h y (List.mem_cons_self ..)
+    cases y with
+    | prim p =>
+      simp only [Bool.and_eq_true] at hy
+      exact ⟨p :: ps, by simp [hps], fun q hq => by
+        rcases List.mem_cons.mp hq with rfl | hq
+        · exact hy
+        · exact hall q hq⟩
+    | _ => simp at hy
+
+theorem pvalType_of_hasType {p : PVal} {t : PT} (h : Xs.Bind.F1.primHasType p t = true) : pvalType p = t := by
+  cases p <;> cases t <;> simp [Xs.Bind.F1.primHasType] at h <;> rfl
+
+theorem value_rt_tokens (e : BEnv) (Γ : Ctx) (fac : Factory) (n : Nat) (cfg : ParserConfig)
+    (m : XmlMeta) (var : XmlVar) (hv : varTokens var = true) (x : Val) (hx : tokensValueOKj e var x = true) :
+    ∃ j, encVarWith fac (encModelF Γ fac {} n) var x = .ok j ∧ j.isNull = isNoneV x ∧ j.native = true ∧
+      varMatches (keyOf var.toVarCore) j var = true ∧
+      ∃ j', unwrapValue var j = .ok j' ∧ (j'.isNull && var.listElement) = false ∧
+        bindValueWith e (bindDataclassF e Γ n) Γ cfg m var j' = ND.pure x := by
+  obtain ⟨htok, hl, ha, hwc, hel, hat, hw, t, hty, hq⟩ := varTokens_facts hv
+  simp only [tokensValueOKj, hty] at hx
+  cases x with
+  | list ys =>
+    obtain ⟨ps, hps, hall⟩ := prims_of_tokensOK e t ys hx
+    subst hps
+    have henc : (ps.map Val.prim).mapM (encElemWith (encModelF Γ fac {} n)) = .ok (ps.map encPrim) := by
+      clear hall hx
+      induction ps with
+      | nil => rfl
+      | cons p ps ih =>
+        rw [List.map_cons, List.mapM_cons, ih]
+        simp [encElemWith, encItemWith, bind, Except.bind, pure, Except.pure]
+    have hser : (ps.map encPrim).mapM serScalar = .ok (ps.map serPrim) := by
+      have hne : ∀ p ∈ ps, pvalType p ≠ .qname := fun p hp => by rw [pvalType_of_hasType (hall p hp).1]; exact hq
+      clear hall hx henc
+      induction ps with
+      | nil => rfl
+      | cons p ps ih =>
+        rw [List.map_cons, List.mapM_cons, ih (fun q hq' => hne q (List.mem_cons_of_mem _ hq'))]
+        have := hne p (List.mem_cons_self ..)
+        cases p with
+        | str s => simp [encPrim, serScalar, serPrim, bind, Except.bind, pure, Except.pure]
+        | int i => simp [encPrim, serScalar, serPrim, bind, Except.bind, pure, Except.pure]
+        | bool b => cases b <;> simp [encPrim, serScalar, serPrim, bind, Except.bind, pure, Except.pure]
+        | qname q => exact absurd rfl this
+    have hsplit : pySplitWs e.py (" ".toList.intercalate (ps.map serPrim)) = ps.map serPrim := by
+      apply Proofs.C01.pySplitWs_join
+      intro s hs
+      obtain ⟨p, hp, rfl⟩ := List.mem_map.mp hs
+      exact Proofs.C01.tokStr_serPrim e (hall p hp).1 (hall p hp).2
+    have hdes : (ps.map serPrim).mapM (fun s => deserialize e s [.prim t] []) = some ps := by
+      have hty' : ∀ p ∈ ps, pvalType p = t := fun p hp => pvalType_of_hasType (hall p hp).1
+      clear hall hx henc hser hsplit
+      induction ps with
+      | nil => rfl
+      | cons p ps ih =>
+        rw [List.map_cons, List.mapM_cons, ih (fun q hq' => hty' q (List.mem_cons_of_mem _ hq'))]
+        have h1 := hty' p (List.mem_cons_self ..)
+        have h2 : pvalType p ≠ .qname := by rw [h1]; exact hq
+        have := deOne_serPrim e p h2
+        rw [h1] at this
+        simp [deserialize, List.findSome?, this]
+    have hnat : (J.arr (ps.map encPrim)).native = true := by
+      simp only [J.native]
+      clear hall hx henc hser hsplit hdes
+      induction ps with
+      | nil => rfl
+      | cons p ps ih =>
+        simp only [List.map_cons, J.nativeList, ih, Bool.and_true]
+        cases p <;> rfl
+    have hat' : var.toVarCore.anyType = false := hat
+    have hwc' : var.toVarCore.isWildcard = false := hwc
+    have htok' : var.toVarCore.tokens = true := htok
+    have hty' : var.toVarCore.types = [.prim t] := hty
+    refine ⟨.arr (ps.map encPrim), ?_, rfl, hnat, ?_, .arr (ps.map encPrim), ?_, by simp [J.isNull], ?_⟩
+    · simp only [encVarWith, hw, encCoreWith, henc]; rfl
+    · simp [varMatches, keyOf, hw, J.isArr, varIsList, htok]
+    · simp [unwrapValue, hw]
+    · unfold bindValueWith
+      simp only [ha, Bool.false_eq_true, if_false, hl]
+      unfold bindItemWith
+      simp only [ha, Bool.false_eq_true, if_false, Xs.Dict.bindText, hel, bindTextPlain, hat', hwc', Bool.or_self,
+        htok', Bool.not_true, Bool.false_and, serializeJ, hser, Except.map]
+      unfold parseVar
+      simp only [Option.getD_none, htok', if_true, hsplit, hty', hdes]
+      simp [List.map_map, Function.comp_def]
+  | none => simp [Xs.Bind.FN.tokensOK] at hx
+  | prim p => simp [Xs.Bind.FN.tokensOK] at hx
+  | obj c fs => simp [Xs.Bind.FN.tokensOK] at hx
+  | any q t' tl a cs => simp [Xs.Bind.FN.tokensOK] at hx
+  | derived q y t' => simp [Xs.Bind.FN.tokensOK] at hx
+  | attrs a => simp [Xs.Bind.FN.tokensOK] at hx
+
+/-! ### a compound field -/
+
+theorem varComp_facts {var : XmlVar} (h : varComp var = true) :
+    var.isElements = true ∧ var.listElement = true ∧ var.isAttributes = false ∧ var.isWildcard = false ∧
+    var.tokens = false ∧ var.isClazzUnion = false ∧ var.elements.isEmpty = false ∧ wrapperName var.toVarCore = none := by
+  simp only [varComp, Bool.and_eq_true, Bool.not_eq_true', Option.isNone_iff_eq_none] at h
+  obtain ⟨⟨⟨⟨⟨⟨⟨h1, h2⟩, h3⟩, h4⟩, h5⟩, h6⟩, h7⟩, h8⟩ := h
+  exact ⟨h1, h2, h3, h4, h5, h6, h7, h8⟩
+
+theorem compItem_rt (e : BEnv) (Γ : Ctx) (fac : Factory) (n : Nat) (ih : IH e Γ fac n) (cfg : ParserConfig)
+    (m : XmlMeta) (var : XmlVar) (hv : varComp var = true) (x : Val)
+    (hx : compItemOKj e (valOKj e Γ fac n) Γ fac var x = true) :
+    ∃ j, encElemWith (encModelF Γ fac {} n) x = .ok j ∧ j.isNull = isNoneV x ∧ j.isArr = false ∧ j.native = true ∧
+      bindItemWith e (bindDataclassF e Γ n) Γ cfg m var j = ND.pure x := by
+  obtain ⟨hel, _, ha, hwc, _, hcu, hne, _⟩ := varComp_facts hv
+  cases x with
+  | prim p =>
+    simp only [compItemOKj, Bool.and_eq_true, bne_iff_ne, ne_eq] at hx
+    obtain ⟨hq, hch⟩ := hx
+    refine ⟨encPrim p, rfl, ?_, ?_, ?_, ?_⟩
+    · cases p <;> rfl
+    · cases p <;> rfl
+    · cases p <;> rfl
+    · have key : Xs.Dict.bindText e cfg var (encPrim p) = .ok (.prim p) := by
+        simp only [Xs.Dict.bindText, hel, if_true]
+        cases hf : findValueChoice e var (encPrim p) with
+        | error err => simp [hf] at hch
+        | ok o =>
+          cases o with
+          | none => simp [hf] at hch
+          | some el =>
+            simp only [hf, Bool.and_eq_true, Bool.not_eq_true'] at hch
+            obtain ⟨⟨⟨ht, hat⟩, hw⟩, hty⟩ := hch
+            simp only [bindTextPlain, hat, hw, Bool.or_self, Bool.false_eq_true, if_false, ht, Bool.not_false,
+              Bool.true_and]
+            cases p with
+            | str s => simp only [encPrim, scalarType]; simp [pvalType] at hty; simp [hty, rawVal, rawScalar]
+            | int i => simp only [encPrim, scalarType]; simp [pvalType] at hty; simp [hty, rawVal, rawScalar]
+            | bool b => simp only [encPrim, scalarType]; simp [pvalType] at hty; simp [hty, rawVal, rawScalar]
+            | qname t => exact absurd rfl hq
+      unfold bindItemWith
+      simp only [ha, Bool.false_eq_true, if_false]
+      cases p with
+      | str s => simp only [encPrim]; rw [show J.str s = encPrim (.str s) from rfl, key]; rfl
+      | int i => simp only [encPrim]; rw [show J.num i = encPrim (.int i) from rfl, key]; rfl
+      | bool b => simp only [encPrim]; rw [show J.bool b = encPrim (.bool b) from rfl, key]; rfl
+      | qname t => exact absurd rfl hq
+  | obj k' fs' =>
+    simp only [compItemOKj, Bool.and_eq_true, beq_iff_eq] at hx
+    obtain ⟨hok, hpool⟩ := hx
+    obtain ⟨kvs, henc, hkeys, hnat, hdec⟩ := ih k' _ hok
+    obtain ⟨n', hn⟩ := valOKj_succ hok
+    subst hn
+    obtain ⟨fs, ci, m', hobj, _, _, hisany, _, hmeta, hcl, hid, _, _, _⟩ := valOKj_unpack hok
+    have hk'ne : k' ≠ anyId := by
+      intro heq
+      simp [isAnyV, heq] at hisany
+    have hmk := markers_user (classOKj_facts hcl).2.2.2.1 (by rw [hid]; exact hk'ne)
+    have hq : kQName ∉ kvKeys kvs := by
+      rw [hkeys]; intro hmem; exact hmk.1 (encKeys_sub hobj hmeta _ hmem)
+    have hch : kChildren ∉ kvKeys kvs := by
+      rw [hkeys]; intro hmem; exact hmk.2 (encKeys_sub hobj hmeta _ hmem)
+    have hany : isGeneric kvs anyRequired anyKeys = false :=
+      isGeneric_false_of_not_mem kvs anyRequired anyKeys kChildren (by simp [anyRequired]) hch
+    have hder : isGeneric kvs derivedRequired derivedKeys = false :=
+      isGeneric_false_of_not_mem kvs derivedRequired derivedKeys kQName (by simp [derivedRequired]) hq
+    refine ⟨.obj kvs, henc, rfl, rfl, hnat, ?_⟩
+    unfold bindItemWith
+    simp only [ha, Bool.false_eq_true, if_false, hany, hder]
+    unfold bindComplexWith
+    simp only [hcu, Bool.false_eq_true, if_false, hne, Bool.not_false, if_true]
+    exact bindBest_unique _ Γ cfg false _ kvs k' _ (by rw [hkeys]; exact hpool) hdec
+  | none => simp [compItemOKj] at hx
+  | list xs => simp [compItemOKj] at hx
+  | any q t tl a cs => simp [compItemOKj] at hx
+  | derived q y t => simp [compItemOKj] at hx
+  | attrs a => simp [compItemOKj] at hx
+
+theorem value_rt_comp (e : BEnv) (Γ : Ctx) (fac : Factory) (n : Nat) (ih : IH e Γ fac n) (cfg : ParserConfig)
+    (m : XmlMeta) (var : XmlVar) (hv : varComp var = true) (x : Val)
+    (hx : compValueOKj e (valOKj e Γ fac n) Γ fac var x = true) :
+    ∃ j, encVarWith fac (encModelF Γ fac {} n) var x = .ok j ∧ j.isNull = isNoneV x ∧ j.native = true ∧
+      varMatches (keyOf var.toVarCore) j var = true ∧
+      ∃ j', unwrapValue var j = .ok j' ∧ (j'.isNull && var.listElement) = false ∧
+        bindValueWith e (bindDataclassF e Γ n) Γ cfg m var j' = ND.pure x := by
+  obtain ⟨_, hl, ha, _, _, _, _, hw⟩ := varComp_facts hv
+  cases x with
+  | list items =>
+    simp only [compValueOKj, List.all_eq_true] at hx
+    have hitems : ∀ y ∈ items, ∃ j, encElemWith (encModelF Γ fac {} n) y = .ok j := by
+      intro y hy
+      obtain ⟨j, hj, _⟩ := compItem_rt e Γ fac n ih cfg m var hv y (hx y hy)
+      exact ⟨j, hj⟩
+    obtain ⟨js, hjs⟩ := mapM_exists _ items hitems
+    have hdec : ND.mapM (bindItemWith e (bindDataclassF e Γ n) Γ cfg m var) js = ND.pure items := by
+      apply nd_mapM_roundtrip _ _ items js hjs
+      intro y hy j hj
+      obtain ⟨j0, hj0, _, _, _, hd⟩ := compItem_rt e Γ fac n ih cfg m var hv y (hx y hy)
+      rw [hj0] at hj
+      injection hj with hj
+      rw [← hj]; exact hd
+    have hnat : (J.arr js).native = true := by
+      simp only [J.native]
+      exact nativeList_of_mapM _ items js hjs (by
+        intro y hy j hj
+        obtain ⟨j0, hj0, _, _, hn, _⟩ := compItem_rt e Γ fac n ih cfg m var hv y (hx y hy)
+        rw [hj0] at hj
+        injection hj with hj
+        rw [← hj]; exact hn)
+    refine ⟨.arr js, ?_, rfl, hnat, ?_, .arr js, ?_, ?_, ?_⟩
+    · simp only [encVarWith, hw, encCoreWith, hjs]; rfl
+    · simp [varMatches, keyOf, hw, J.isArr, varIsList, hl]
+    · simp [unwrapValue, hw]
+    · simp [J.isNull]
+    · unfold bindValueWith
+      simp only [ha, Bool.false_eq_true, if_false, hl, if_true, hdec, nd_pure_bind]
+  | none => simp [compValueOKj] at hx
+  | prim p => simp [compValueOKj] at hx
+  | obj c fs => simp [compValueOKj] at hx
+  | any q t tl a cs => simp [compValueOKj] at hx
+  | derived q y t => simp [compValueOKj] at hx
+  | attrs a => simp [compValueOKj] at hx
+
+/-! ### any var of the fragment -/
+
+theorem varOKj_cases {var : XmlVar} (hv : varOKj var = true) :
+    varTyped var = true ∨ varAttrs var = true ∨ varWild var = true ∨ varTokens var = true ∨ varComp var = true := by
+  simp only [varOKj, Bool.or_eq_true] at hv
+  rcases hv with (((h | h) | h) | h) | h
+  · exact Or.inl h
+  · exact Or.inr (Or.inl h)
+  · exact Or.inr (Or.inr (Or.inl h))
+  · exact Or.inr (Or.inr (Or.inr (Or.inl h)))
+  · exact Or.inr (Or.inr (Or.inr (Or.inr h)))
+
+theorem value_rt (e : BEnv) (Γ : Ctx) (fac : Factory) (n : Nat) (ih : IH e Γ fac n) (cfg : ParserConfig)
+    (m : XmlMeta) (var : XmlVar) (hv : varOKj var = true) (x : Val)
+    (hx : valueOKj e (valOKj e Γ fac n) Γ fac var x = true) :
+    ∃ j, encVarWith fac (encModelF Γ fac {} n) var x = .ok j ∧ j.isNull = isNoneV x ∧ j.native = true ∧
+      varMatches (keyOf var.toVarCore) j var = true ∧
+      ∃ j', unwrapValue var j = .ok j' ∧ (j'.isNull && var.listElement) = false ∧
+        bindValueWith e (bindDataclassF e Γ n) Γ cfg m var j' = ND.pure x := by
+  unfold valueOKj at hx
+  rcases varOKj_cases hv with hv | hv | hv | hv | hv
+  · obtain ⟨h1, h2, h3, _, _, _, h7⟩ := varTyped_facts hv
+    simp only [h1, h2, h3, h7, Bool.false_eq_true, if_false] at hx
+    exact value_rt_typed e Γ fac n ih cfg m var hv x hx
+  · have ha : var.isAttributes = true := by simp only [varAttrs, Bool.and_eq_true] at hv; exact hv.1.1.1
+    simp only [ha, if_true] at hx
+    exact value_rt_attrs e Γ fac n cfg m var hv x hx
+  · obtain ⟨hw, ha, _, _, _⟩ := varWild_facts hv
+    simp only [ha, hw, Bool.false_eq_true, if_false, if_true] at hx
+    exact value_rt_wild e Γ fac n ih cfg m var hv x hx
+  · obtain ⟨ht, _, ha, hw, _⟩ := varTokens_facts hv
+    simp only [ha, hw, ht, Bool.false_eq_true, if_false, if_true] at hx
+    exact value_rt_tokens e Γ fac n cfg m var hv x hx
+  · obtain ⟨hel, _, ha, hw, ht, _⟩ := varComp_facts hv
+    simp only [ha, hw, ht, hel, Bool.false_eq_true, if_false, if_true] at hx
+    exact value_rt_comp e Γ fac n ih cfg m var hv x hx
+
+theorem varOKj_wrapper_ne {var : XmlVar} (hv : varOKj var = true) (w : Str)
+    (hw : wrapperName var.toVarCore = some w) : var.localName ≠ w := by
+  rcases varOKj_cases hv with hv | hv | hv | hv | hv
+  · exact (varTyped_wrapper hv w hw).2
+  · simp [varAttrs, hw] at hv
+  · have := (varWild_facts hv).2.2.2.2; rw [hw] at this; cases this
+  · have := (varTokens_facts hv).2.2.2.2.2.2.1; rw [hw] at this; cases this
+  · have := (varComp_facts hv).2.2.2.2.2.2.2; rw [hw] at this; cases this
 
 /-! ### the two loops -/
 
@@ -679,12 +1204,12 @@ theorem keptBy_eq (fac : Factory) (k : Str) (j : J) (x : Val) (h : j.isNull = is
   · cases x <;> rfl
   · cases x <;> simp [keepP, keptBy, h, isNoneV]
 
-theorem keys_kept (Γ : Ctx) (fac : Factory) (recE : Val → Except Err J) (c : ClassId) (fs : List (Str × Val))
-    (m : XmlMeta) (hmeta : metaOf Γ c = .ok m)
+theorem keys_kept (Γ : Ctx) (fac : Factory) (recE : Val → Except Err J) (v : Val) (c : ClassId) (fs : List (Str × Val))
+    (m : XmlMeta) (hobj : asObject v = some (c, fs)) (hmeta : metaOf Γ c = .ok m)
     (h : ∀ var ∈ allVars m, kvGet fs var.name = some (xOf fs var) ∧
       keepP fac (pairOf fac recE fs var) = keptBy fac (xOf fs var)) :
-    kvKeys (((allVars m).map (pairOf fac recE fs)).filter (keepP fac)) = encKeys Γ fac (.obj c fs) := by
-  simp only [encKeys, hmeta]
+    kvKeys (((allVars m).map (pairOf fac recE fs)).filter (keepP fac)) = encKeys Γ fac v := by
+  simp only [encKeys, hobj, hmeta]
   generalize allVars m = vars at h
   induction vars with
   | nil => rfl
@@ -736,9 +1261,8 @@ theorem defaultIs_eq {f : FieldInfo} {x : Val} (h : defaultIs f x = true) : f.de
 
 theorem rt_step (e : BEnv) (Γ : Ctx) (fac : Factory) (n : Nat) (ih : IH e Γ fac n) : IH e Γ fac (n + 1) := by
   intro c v hok
-  obtain ⟨fs, ci, m, hv, hca, hcd, hfind, hmeta, hcl, hnames, hvars, hfields⟩ := valOKj_unpack hok
-  subst hv
-  obtain ⟨cv, cnd, cuniq, cq, cnames, cfnames, cfv, _⟩ := classOKj_facts hcl
+  obtain ⟨fs, ci, m, hobj, hgv, hcd, hisany, hfind, hmeta, hcl, hid, hnames, hvars, hfields⟩ := valOKj_unpack hok
+  obtain ⟨cv, cnd, cuniq, cmark, cnames, cfnames, cfv⟩ := classOKj_facts hcl
   have hx : ∀ var ∈ allVars m, kvGet fs var.name = some (xOf fs var) := by
     intro var hvar
     obtain ⟨x, hget, _⟩ := hvars var hvar
@@ -764,7 +1288,7 @@ theorem rt_step (e : BEnv) (Γ : Ctx) (fac : Factory) (n : Nat) (ih : IH e Γ fa
   -- the encoder
   have hpairs := encPairs_eq fac (encModelF Γ fac {} n) fs (allVars m)
     (fun var hvar => ⟨hx var hvar, (hper {} var hvar).1⟩)
-  have hkeys := keys_kept Γ fac (encModelF Γ fac {} n) c fs m hmeta (fun var hvar => ⟨hx var hvar, hkeep var hvar⟩)
+  have hkeys := keys_kept Γ fac (encModelF Γ fac {} n) v c fs m hobj hmeta (fun var hvar => ⟨hx var hvar, hkeep var hvar⟩)
   have hnd : ((((allVars m).map (pairOf fac (encModelF Γ fac {} n) fs)).filter (keepP fac)).map (·.1)).Nodup := by
     have hsub : List.Sublist ((((allVars m).map (pairOf fac (encModelF Γ fac {} n) fs)).filter (keepP fac)).map (·.1))
         (((allVars m).map (pairOf fac (encModelF Γ fac {} n) fs)).map (·.1)) :=
@@ -779,18 +1303,27 @@ theorem rt_step (e : BEnv) (Γ : Ctx) (fac : Factory) (n : Nat) (ih : IH e Γ fa
   · simp only [J.native, Bool.and_eq_true, decide_eq_true_eq]
     exact ⟨hnd, nativePairs_filter_map _ _ _ (fun var hvar => (hper {} var hvar).2.2.1)⟩
   rotate_left
-  · simp only [encModelF, asObject, encObjWith, hmeta, hpairs, Except.map, fac_apply_eq, dictOf_nodup _ hnd]
+  · simp only [encModelF, hobj, encObjWith, hmeta, hpairs, Except.map, fac_apply_eq, dictOf_nodup _ hnd]
   · intro cfg
-    have hq : kQName ∉ kvKeys (((allVars m).map (pairOf fac (encModelF Γ fac {} n) fs)).filter (keepP fac)) := by
-      rw [hkeys]
-      intro hmem
-      exact cq (encKeys_sub hmeta _ hmem)
-    have hder := keysEq_false_of_not_mem _ derivedKeys kQName (by simp [derivedKeys]) hq
+    have hder : keysEq (((allVars m).map (pairOf fac (encModelF Γ fac {} n) fs)).filter (keepP fac)) derivedKeys = false := by
+      by_cases hc : c = anyId
+      · -- the generic element: `value` is none of its keys
+        have hmk := markers_any (by have := cmark; rwa [hid, hc] at this)
+        apply keysEq_false_of_not_mem _ derivedKeys kValue (by simp [derivedKeys])
+        rw [hkeys]
+        intro hmem
+        have := hmk.1 kValue (encKeys_sub hobj hmeta _ hmem)
+        revert this; decide
+      · have hmk := markers_user (by have := cmark; rwa [hid] at this) hc
+        apply keysEq_false_of_not_mem _ derivedKeys kQName (by simp [derivedKeys])
+        rw [hkeys]
+        intro hmem
+        exact hmk.1 (encKeys_sub hobj hmeta _ hmem)
     have hloop := bindPairs_eq e (bindDataclassF e Γ n) Γ cfg m (allVars m) fac (encModelF Γ fac {} n) fs
       (allVars m) [] (by
         intro var hvar
         obtain ⟨_, _, _, hm, hrest⟩ := hper cfg var hvar
-        refine ⟨?_, hrest, ?_, fun w hw => (varOKj_wrapper (cv var hvar) w hw).2⟩
+        refine ⟨?_, hrest, ?_, fun w hw => varOKj_wrapper_ne (cv var hvar) w hw⟩
         · apply find?_unique _ _ var hvar hm
           intro b hb hbm
           exact cuniq var hvar b hb (varMatches_names hbm)
@@ -826,8 +1359,6 @@ theorem rt_step (e : BEnv) (Γ : Ctx) (fac : Factory) (n : Nat) (ih : IH e Γ fa
           simp only [hi', Bool.false_eq_true, if_false] at hfl ⊢
           right
           exact ⟨trivial, defaultIs_eq hfl⟩)
-    have hgv : genericView (.obj c fs) = .ok (.obj c fs) := by
-      simp [genericView, hca, hcd]
     simp only [bindDataclassF, bindDataclassWith, hder, Bool.false_eq_true, if_false, hmeta, hloop, nd_pure_bind,
       hcf, hgv, nd_ofExcept_ok]
 
@@ -836,5 +1367,139 @@ theorem rt_all (e : BEnv) (Γ : Ctx) (fac : Factory) : ∀ n, IH e Γ fac n := b
   induction n with
   | zero => intro c v h; simp [valOKj] at h
   | succ n ih => exact rt_step e Γ fac n ih
+
+/-- `encode(obj)` (no var) of a model instance is the instance's own encoding -/
+theorem encode_of_object (Γ : Ctx) (fac : Factory) (cfg : SerCfg) (n : Nat) {v : Val} {cf : ClassId × List (Str × Val)}
+    (h : asObject v = some cf) :
+    encode Γ fac cfg n v = encModelF Γ fac cfg n v ∧ encTopItem Γ fac cfg n v = encModelF Γ fac cfg n v := by
+  cases v with
+  | obj c fs => exact ⟨rfl, rfl⟩
+  | any q t tl a cs => exact ⟨rfl, rfl⟩
+  | derived q x t => exact ⟨rfl, rfl⟩
+  | none => simp [asObject] at h
+  | prim p => simp [asObject] at h
+  | list xs => simp [asObject] at h
+  | attrs a => simp [asObject] at h
+
+/-! ### typing is enough in a universe without subclass pools -/
+
+theorem find_mem {Γ : Ctx} {k : ClassId} {ci : ClassInfo} (h : Γ.find k = some ci) : ci ∈ Γ.classes ∧ ci.id = k := by
+  unfold Ctx.find at h
+  exact ⟨List.mem_of_find?_eq_some h, by simpa using List.find?_some h⟩
+
+theorem valOKu_valOKj (e : BEnv) (Γ : Ctx) (fac : Factory) (huni : noSubclassPools Γ = true) :
+    ∀ (n : Nat) (c : ClassId) (v : Val), valOKu e Γ fac n c v = true → valOKj e Γ fac n c v = true := by
+  intro n
+  induction n with
+  | zero => intro c v h; simp [valOKu] at h
+  | succ n ih =>
+    intro c v h
+    have hitem : ∀ (var : XmlVar) (x : Val), itemOKu e (valOKu e Γ fac n) Γ var x = true →
+        itemOKj e (valOKj e Γ fac n) Γ fac var x = true := by
+      intro var x hx
+      cases x with
+      | obj k' fs' =>
+        simp only [itemOKu] at hx
+        simp only [itemOKj]
+        cases hc : var.clazz with
+        | none => simp [hc] at hx
+        | some k =>
+          simp only [hc, Bool.and_eq_true] at hx ⊢
+          refine ⟨ih _ _ hx.1, ?_⟩
+          have hmem := hx.2
+          simp only [memPool, Bool.and_eq_true, Option.isSome_iff_exists] at hmem
+          obtain ⟨⟨ci, hfind⟩, hk'⟩ := hmem
+          obtain ⟨hci, hid⟩ := find_mem hfind
+          have hsubs : (subclassesOf Γ k).isEmpty = true := by
+            have := List.all_eq_true.mp huni ci hci
+            rwa [hid] at this
+          have hnil : subclassesOf Γ k = [] := List.isEmpty_iff.mp hsubs
+          simp only [poolOKj, hsubs, if_true]
+          simpa [hnil] using hk'
+      | _ => exact hx
+    have hwild : ∀ (x : Val), wildItemOKj (valOKu e Γ fac n) x = true → wildItemOKj (valOKj e Γ fac n) x = true := by
+      intro x hx
+      cases x with
+      | any q t tl a cs => exact ih _ _ hx
+      | _ => exact hx
+    have hval : ∀ (var : XmlVar) (x : Val), valueOKu e (valOKu e Γ fac n) Γ fac var x = true →
+        valueOKj e (valOKj e Γ fac n) Γ fac var x = true := by
+      intro var x hx
+      unfold valueOKu at hx
+      unfold valueOKj
+      by_cases ha : var.isAttributes = true
+      · simpa [ha] using hx
+      · have ha' : var.isAttributes = false := by simpa using ha
+        simp only [ha', Bool.false_eq_true, if_false] at hx ⊢
+        by_cases hw : var.isWildcard = true
+        · simp only [hw, if_true, wildValueOKj] at hx ⊢
+          by_cases hl : var.listElement = true
+          · simp only [hl, if_true] at hx ⊢
+            cases x with
+            | list items =>
+              simp only [List.all_eq_true] at hx ⊢
+              exact fun y hy => hwild y (hx y hy)
+            | _ => exact hx
+          · have hl' : var.listElement = false := by simpa using hl
+            simp only [hl', Bool.false_eq_true, if_false] at hx ⊢
+            cases x with
+            | list xs => exact hx
+            | _ => exact hwild _ hx
+        · have hw' : var.isWildcard = false := by simpa using hw
+          simp only [hw', Bool.false_eq_true, if_false] at hx ⊢
+          by_cases htk : var.tokens = true
+          · simpa [htk] using hx
+          have htk' : var.tokens = false := by simpa using htk
+          simp only [htk', Bool.false_eq_true, if_false] at hx ⊢
+          by_cases hel : var.isElements = true
+          · simp only [hel, if_true, compValueOKj] at hx ⊢
+            cases x with
+            | list items =>
+              simp only [List.all_eq_true] at hx ⊢
+              intro y hy
+              have := hx y hy
+              cases y with
+              | obj k' fs' =>
+                simp only [compItemOKj, Bool.and_eq_true] at this ⊢
+                exact ⟨ih _ _ this.1, this.2⟩
+              | _ => exact this
+            | _ => exact hx
+          have hel' : var.isElements = false := by simpa using hel
+          simp only [hel', Bool.false_eq_true, if_false, typedValueOKu, typedValueOKj] at hx ⊢
+          by_cases hl : var.listElement = true
+          · simp only [hl, if_true] at hx ⊢
+            cases x with
+            | list items =>
+              simp only [List.all_eq_true] at hx ⊢
+              exact fun y hy => hitem var y (hx y hy)
+            | _ => exact hx
+          · have hl' : var.listElement = false := by simpa using hl
+            simp only [hl', Bool.false_eq_true, if_false] at hx ⊢
+            cases x with
+            | list xs => exact hx
+            | _ => exact hitem var _ hx
+    unfold valOKu at h
+    unfold valOKj
+    cases hobj : asObject v with
+    | none => simp [hobj] at h
+    | some cf =>
+      obtain ⟨c', fs⟩ := cf
+      simp only [hobj] at h ⊢
+      cases hfind : Γ.find c with
+      | none => simp [hfind] at h
+      | some ci =>
+        cases hmeta : metaOf Γ c with
+        | error err => simp [hfind, hmeta] at h
+        | ok m =>
+          simp only [hfind, hmeta, Bool.and_eq_true, List.all_eq_true] at h ⊢
+          obtain ⟨hhead, ⟨⟨⟨hcl, hnames⟩, hvars⟩, hfields⟩⟩ := h
+          refine ⟨hhead, ⟨⟨⟨hcl, hnames⟩, ?_⟩, hfields⟩⟩
+          intro var hvar
+          have := hvars var hvar
+          cases hget : kvGet fs var.name with
+          | none => simp [hget] at this
+          | some x =>
+            simp only [hget, Bool.and_eq_true] at this ⊢
+            exact ⟨hval var x this.1, this.2⟩
 
 end Proofs.C04
